@@ -4,7 +4,7 @@ from ..ref import cell as RC
 from ..ref import boc as RB
 from . import bocfam
 from .c03 import _find
-from .common import to_lib, exc_name
+from .common import to_lib, exc_name, user_recursion_limit
 
 ID = 'C04'
 TITLE = 'Emitted bag-of-cells bytes conform to the TON BoC wire format'
@@ -38,12 +38,110 @@ def selftest():
 
 
 def REQUIRED_COVER(tier):
-    return {'opt:plain', 'opt:idx', 'opt:idx+cache', 'opt:+crc', 'opt:idx+crc', 'opt:idx+crc+cache', 'exotic', 'cells:257', 'payload:65536', 'shared'}
+    return {'opt:plain', 'opt:idx', 'opt:idx+cache', 'opt:+crc', 'opt:idx+crc', 'opt:idx+crc+cache', 'exotic', 'cells:257', 'payload:65536', 'shared', 'unshared', 'history'}
 
 
 def shards(tier, seed):
     from . import c03
-    return c03.shards(tier, seed)
+    out = c03.shards(tier, seed)
+    k = 8 if tier == 'quick' else 32
+    out += [{'fn': 'shard_objects', 'args': {'part': p, 'parts': k}} for p in range(k)]
+    return out
+
+
+def _check_bytes(rec, data, rc, on, key, label, fn, args):
+    """data must be a conforming serialisation of exactly the DAG rc"""
+    rec.trans()
+    try:
+        roots, info = RB.decode(bytes(data))
+        rec.trace()
+    except RB.BocFormatError as e:
+        what = str(e).split('[')[0].split(' ')[0]
+        rec.violation(f'{key}:{on}:{what}', f'{label}: bytes emitted with {on} are rejected by the strict decoder: {e}', fn, args)
+        rec.outcome(f'REJECTED:{what}')
+        return False
+    if len(roots) != 1 or roots[0].hash() != rc.hash() or RC.canon(roots[0]) != RC.canon(rc):
+        rec.violation(f'{key}:{on}:dag', f'{label}: emitted bytes decode to a different DAG', fn, args)
+        rec.outcome('OTHER-DAG')
+        return False
+    if info['n'] != len(RC.topo([rc])):
+        rec.violation(f'{key}:{on}:count', f'{label}: {info["n"]} cells written, DAG has {len(RC.topo([rc]))} distinct cells', fn, args)
+        return False
+    rec.outcome('accepted')
+    return True
+
+
+HIST_OPTS = (0, 5, 2)        # plain, idx+crc+cache, idx+cache
+
+
+def case_unshared(rec, name, opt_i):
+    """the same DAG built so that equal sub-cells are DISTINCT Python objects (each occurrence built separately)"""
+    rc = _find('thorough' if name.startswith('shape:4') else rec.tier, rec.seed, name)()
+    opts = bocfam.OPTION_SETS[opt_i]
+    on = bocfam.opt_name(opts)
+    args = {'name': name, 'opt_i': opt_i}
+    rec.case('unshared')
+    rec.state(('unshared', name, on))
+    try:
+        data = bocfam.to_lib_unshared(rc).to_boc(**opts)
+    except Exception as e:
+        rec.violation(f'unshared:serialize:{on}', f'{name} (equal sub-cells as distinct objects): to_boc({on}) raised {exc_name(e)}: {e}', 'case_unshared', args)
+        return
+    if _check_bytes(rec, data, rc, on, 'unshared', f'{name} (equal sub-cells as distinct objects)', 'case_unshared', args):
+        rec.covered('unshared')
+        if len(RC.topo([rc])) < sum(len(c.refs) for c in RC.topo([rc])) + 1:
+            rec.nontriv(('unshared', name, on))
+
+
+def case_history(rec, name, i, j, opt_i, opt_j, unshared=False):
+    """serialise the sub-DAG rooted at node i, then the one rooted at node j, of ONE object graph: the second result
+    (and the first) must be the conforming serialisation of that sub-DAG whatever was serialised before"""
+    rc = _find('thorough' if name.startswith('shape:4') else rec.tier, rec.seed, name)()
+    root = bocfam.to_lib_unshared(rc) if unshared else to_lib(rc)
+    nodes = bocfam.lib_nodes(root)
+    from .common import from_lib
+    args = {'name': name, 'i': i, 'j': j, 'opt_i': opt_i, 'opt_j': opt_j, 'unshared': unshared}
+    rec.case('history')
+    rec.state(('history', name, i, j, opt_i, opt_j, unshared))
+    rec.nontriv(('history', name, i, j, opt_i, opt_j, unshared))
+    for step, (k, oi) in enumerate(((i, opt_i), (j, opt_j), (i, opt_i))):
+        opts = bocfam.OPTION_SETS[oi]
+        on = bocfam.opt_name(opts)
+        want = from_lib(nodes[k])
+        try:
+            data = nodes[k].to_boc(**opts)
+        except Exception as e:
+            rec.violation(f'history:serialize:{on}', f'{name}: to_boc({on}) of node {k} as call #{step + 1} of the sequence nodes {[i, j, i]} raised {exc_name(e)}: {e}', 'case_history', args)
+            return
+        if not _check_bytes(rec, data, want, on, 'history', f'{name}: to_boc of node {k} as call #{step + 1} of the sequence nodes {[i, j, i]} on one object graph', 'case_history', args):
+            return
+    rec.covered('history')
+
+
+def shard_objects(rec, part, parts):
+    fam = [(n, mk) for n, mk in bocfam.family(rec.tier, rec.seed) if n.startswith('shape:') or n.startswith('exotic1') or n in ('update', 'library')]
+    for idx, (name, mk) in enumerate(fam):
+        if idx % parts != part:
+            continue
+        rc = mk()
+        if not rc.refs:
+            continue
+        for oi in range(6):
+            case_unshared(rec, name, oi)
+        n = len(bocfam.lib_nodes(to_lib(rc)))
+        for i in range(n):
+            for j in range(n):
+                if i != j:
+                    for oi, oj in ((0, 0), (5, 5), (0, 5), (2, 0)):
+                        case_history(rec, name, i, j, oi, oj)
+        nu = len(bocfam.lib_nodes(bocfam.to_lib_unshared(rc)))
+        if nu != n and nu <= 8:
+            for i in range(nu):
+                for j in range(nu):
+                    if i != j:
+                        case_history(rec, name, i, j, 0, 0, unshared=True)
+    if part == 0:
+        rec.sample({'object_graph_cases': 'every DAG shape: equal sub-cells as distinct objects; every ordered pair of nodes serialised one after the other'})
 
 
 def case_dag(rec, name, opt_i, tier=None):
@@ -54,7 +152,8 @@ def case_dag(rec, name, opt_i, tier=None):
     args = {'name': name, 'opt_i': opt_i, 'tier': tier}
     rec.case('emit')
     try:
-        data = to_lib(rc).to_boc(**opts)
+        with user_recursion_limit():
+            data = to_lib(rc).to_boc(**opts)
         rec.trans()
     except Exception as e:
         rec.violation(f'serialize:{on}', f'{name}: to_boc({on}) raised {exc_name(e)}: {e}', 'case_dag', args)
